@@ -44,7 +44,10 @@ def codes(text):
 
 
 def is_str(e):
-    return (isinstance(e, ast.Constant) and isinstance(e.value, str)) or (STR_VARS and ast.unparse(e) in STR_VARS)
+    if (isinstance(e, ast.Constant) and isinstance(e.value, str)) or (STR_VARS and ast.unparse(e) in STR_VARS):
+        return True
+    # text + anything is text
+    return isinstance(e, ast.BinOp) and isinstance(e.op, ast.Add) and (is_str(e.left) or is_str(e.right))
 
 
 def is_strconst(e):
@@ -809,6 +812,41 @@ def body_of(fn):
     return [x for x in fn.body if not (isinstance(x, ast.Expr) and is_strconst(x.value))]
 
 
+def generate_proj(repo):
+    """handlers/dap.py `SequenceProxy._projection` and `SequenceProxy.id` (C04's `SeqClient.projText` / `proxyId`)"""
+    dap = parse_src(repo, "handlers", "dap.py")
+    table = {"self.sub_children": "self.sub_children",
+             "list(self.template.children())": "@children",
+             "[child.id for child in self.template.children()]": "@child_ids",
+             "(child.id for child in self.template.children())": "@child_ids",
+             "self.template.id": "self.template.id",
+             "hyperslab(self.slice)": "@hyperslab",
+             "isinstance(self.template, SequenceType)": "@template_is_sequence",
+             "self.id": "self.id"}
+    strs = {"seq", "name", "hyperslab(self.slice)", "self.id", "self.template.id"}
+
+    def projection():
+        fn = find_method(dap, "SequenceProxy", "_projection")
+        with abstracting(table, str_vars=strs):
+            return stmts(body_of(fn), None, tail=True)
+
+    def ident():
+        fn = find_method(dap, "SequenceProxy", "id")
+        with abstracting(table, str_vars=strs):
+            return stmts(body_of(fn), None, tail=True)
+
+    parts = [HEADER,
+             block("src_seq_projection", "handlers/dap.py SequenceProxy._projection: the whole body; inputs: `self.sub_children`, "
+                   "`@children` for `list(self.template.children())`, `@child_ids` for the comprehension "
+                   "`[child.id for child in self.template.children()]`, `self.template.id`, `@hyperslab` for "
+                   "`hyperslab(self.slice)`, `@template_is_sequence` for `isinstance(self.template, SequenceType)`, `self.id`; "
+                   "`return e` is `@ret = e`", projection),
+             block("src_seq_id", "handlers/dap.py SequenceProxy.id: the whole body; `@child_ids` stands for the generator "
+                   "`(child.id for child in self.template.children())`", ident),
+             "end Pydap.Gen\n"]
+    return "\n".join(parts)
+
+
 def generate_hlib(repo):
     """handlers/lib.py `check_hyperslab` (C15/C02's `Handler.validSl` / the guard of `Handler.sliceBase`)"""
     hlib = parse_src(repo, "handlers", "lib.py")
@@ -824,7 +862,7 @@ def generate_hlib(repo):
     return "\n".join(parts)
 
 
-GENERATORS = [("HlibSrc.lean", generate_hlib), ("SsfSrc.lean", generate_ssf), ("DmrSrc.lean", generate_dmr), ("LibSrc.lean", generate_lib), ("SliceSrc.lean", generate), ("DapSrc.lean", generate_dap), ("DodsSrc.lean", generate_dods),
+GENERATORS = [("HlibSrc.lean", generate_hlib), ("ProjSrc.lean", generate_proj), ("SsfSrc.lean", generate_ssf), ("DmrSrc.lean", generate_dmr), ("LibSrc.lean", generate_lib), ("SliceSrc.lean", generate), ("DapSrc.lean", generate_dap), ("DodsSrc.lean", generate_dods),
               ("AppSrc.lean", generate_app), ("CeSrc.lean", generate_ce)]
 
 
